@@ -104,6 +104,35 @@ def run(chk):
             if H >= 5 and len(chk.cov['samples']) < 2:
                 chk.sample(dict(H=H, particles=npart, tracers=S, ngal={t: len(ref[t]['x']) for t in S}, ncent={t: int(ref[t]['Ncent']) for t in S}))
     chk.part('gen_gal_cat_threads', runs=nrun)
+    # ---- block-boundary sweep: EVERY host-table and particle-table size up to 130 (quick) / 520 (thorough) with thread counts that do not divide them,
+    #      nearly every host / particle selected, so that a block boundary that loses or duplicates a row shows as a missing / extra galaxy
+    nsweep = 0
+    rs = np.random.default_rng(chk.seed + 99)
+    top = 130 if chk.quick else 520
+    halos_all = hc.make_halos(rs, top)
+    halos_all['hmass'][:] = 10 ** 14.4
+    halos_all['hrandoms'][:] = rs.random(top) * 0.05
+    parts_all_ = hc.make_particles(rs, halos_all, top, hosts=rs.integers(0, 3, top))
+    parts_all_['prandoms'][:] = rs.random(top) * 1e-3
+    parts_all_['pweights'][:] = 1.0
+    trs = {'LRG': dict(hc.LRG, ic=1.0, logM1=12.0, logM_cut=12.0), 'QSO': dict(hc.QSO, ic=1.0)}
+    for size in range(1, top + 1, 1 if chk.quick else 3):
+        Hh = {k_: v_[:size].copy() for k_, v_ in halos_all.items()}
+        Pp = {k_: v_[:size].copy() for k_, v_ in parts_all_.items()}
+        Pp['pinds'] = np.minimum(Pp['pinds'], size - 1)
+        for kk in ('phvel', 'phmass', 'phid', 'pdeltac', 'pfenv', 'pshear'):
+            Pp[kk] = {'phvel': Hh['hvel'], 'phmass': Hh['hmass'], 'phid': Hh['hid'], 'pdeltac': Hh['hdeltac'], 'pfenv': Hh['hfenv'], 'pshear': Hh['hshear']}[kk][Pp['pinds']]
+        ref1 = hc.run_hod(Hh, Pp, trs, 1, rsd=False)
+        for T in ((7, 11, 13) if size % 2 else (14, 15, 3)):
+            o = hc.run_hod(Hh, Pp, trs, T, rsd=False)
+            nsweep += 1
+            diff_ = same(ref1, o)
+            if diff_:
+                chk.violation('block-boundary-sweep', f'{size} hosts and {size} particles, Nthread={T}: {diff_}; the catalogue differs from the single-thread catalogue '
+                              f'({ {t_: (int(o[t_]["Ncent"]), len(o[t_]["x"])) for t_ in trs} } vs { {t_: (int(ref1[t_]["Ncent"]), len(ref1[t_]["x"])) for t_ in trs} } (Ncent, rows))', dict(H=size, T=T))
+                break
+    chk.part('block_boundary_sweep', runs=nsweep)
+    nrun += nsweep
     # ---- fast_concatenate against numpy
     nfc = 0
     for N1 in range(0, 12 if chk.quick else 30):
